@@ -74,6 +74,70 @@ WXYZ = ("qw", "qx", "qy", "qz")
 XYZ = ("x", "y", "z")
 
 
+def _kitti_entries(poses: T, pe, mat: T):
+    """(ok, why) from the entry algebra: every pose is the 4x4 matrix whose
+    entry (i, j), i < 3, is column 4i + j of its own row and whose bottom row
+    is 0 0 0 1 — for per-row constructions and for constructions vectorised
+    over the whole file alike; None if the construction is outside the
+    algebra"""
+    from ..tensor import Tensor, TensorError
+    try:
+        if pe is not None and not pe[3] and pe[2] is mat:
+            row = T("elem", mat, pe[1])
+            ten = Tensor({row: ("row", (12,))})
+            if ten.shape(pe[0]) != (4, 4):
+                return False, f"pose shape {ten.shape(pe[0])}"
+            get = lambda i, j: ten.entry(pe[0], (i, j))
+            src = ("src", "row")
+        else:
+            ten = Tensor({mat: ("mat", ("n", 12))})
+            if ten.shape(poses) != ("n", 4, 4):
+                return False, f"pose array shape {ten.shape(poses)}"
+            get = lambda i, j: ten.entry(poses, ("p", i, j))
+            src = ("src", "mat", "p")
+        for i in range(3):
+            for j in range(4):
+                e = get(i, j)
+                if e != src + (4 * i + j,):
+                    return False, (f"entry ({i},{j}) is {e}, expected "
+                                   f"column {4 * i + j} of the pose's row")
+        bottom = [get(3, j) for j in range(4)]
+        if bottom != [("const", 0.0)] * 3 + [("const", 1.0)]:
+            return False, f"bottom row {bottom}"
+        return True, ""
+    except (TensorError, IndexError, TypeError):
+        return None
+
+
+def _kitti_rows(data: T, poses: T):
+    """(ok, why): the table handed to savetxt has, for every pose in order,
+    the 12 entries (i, j), i < 3, of the pose matrix in row-major order"""
+    from ..tensor import Tensor, TensorError
+    pe = per_element(data)
+    try:
+        if pe is not None and not pe[3] and pe[2] is poses:
+            pose = T("elem", poses, pe[1])
+            ten = Tensor({pose: ("pose", (4, 4))})
+            if ten.shape(pe[0]) != (12,):
+                return False, f"row shape {ten.shape(pe[0])}"
+            get = lambda c: ten.entry(pe[0], (c,))
+            src = ("src", "pose")
+        else:
+            ten = Tensor({poses: ("poses", ("n", 4, 4))})
+            if ten.shape(data) != ("n", 12):
+                return False, f"table shape {ten.shape(data)}"
+            get = lambda c: ten.entry(data, ("p", c))
+            src = ("src", "poses", "p")
+        for c in range(12):
+            e = get(c)
+            if e != src + (c // 4, c % 4):
+                return False, (f"column {c} is {e}, expected pose entry "
+                               f"({c // 4},{c % 4})")
+        return True, ""
+    except (TensorError, IndexError, TypeError):
+        return None
+
+
 class Reader:
     def __init__(self, prog, name):
         self.f = prog.func(FI + name)
@@ -379,7 +443,14 @@ def check(ctx):
             pe = per_element(poses) if poses is not None else None
             ok = False
             why = fmt(poses)
-            if pe is not None and not pe[3] and pe[2] is rd.mat:
+            # (the float matrix as converted, before any reshaped view)
+            fm = rd.conv[0].data["result"] if rd.conv else rd.mat
+            pe_f = pe if (pe is not None and pe[2] is fm) else None
+            tv = _kitti_entries(poses, pe_f, fm) if poses is not None \
+                else None
+            if tv is not None:
+                ok, why = tv
+            elif pe is not None and not pe[3] and pe[2] is rd.mat:
                 row = T("elem", rd.mat, pe[1])
                 m = pe[0]
                 if is_call_to(m, "numpy.array") and m.args[1] and \
@@ -509,6 +580,9 @@ def _writers(ctx, prog):
                 pe[0] is tm.sub(tm.call(tm.attr(T("elem", poses, pe[1]),
                                                 "flatten"), (), ()),
                                 T("slice", tm.NONE, const(12), tm.NONE)))
+    tv = _kitti_rows(data, poses)
+    if tv is not None:
+        ok = tv[0]
     ctx.ob("C07.2", sv[0], ok,
            "KITTI writer: the first 12 row-major entries of every pose, one "
            "pose per row in order" if ok else
